@@ -10,5 +10,12 @@ TEXT = {
         "note": _NOTE,
         "technique": "runtime monitoring: differential oracle (reference interpreter) over generated expression trees, with blame assignment",
     },
+    "C02": {
+        "level": "Held on the executions observed: generated expression trees (incl. truly Hermitian/PSD/unitary operators declared "
+                 "as such, real and complex) x towers of .T/.H up to depth 3, each judged through densification, right and left "
+                 "products against the reference interpreter. Sampling, not proof.",
+        "note": _NOTE,
+        "technique": "runtime monitoring: differential oracle (reference interpreter) over expression trees x transpose/adjoint towers, left and right products",
+    },
 }
 NOT_APPLICABLE = {}
